@@ -56,6 +56,31 @@ CHECKS = {
    "Round trip and leak scan for wrapped-key lengths (thorough: every 16..=1024) x every plaintext length 32..=64; on each fault base every single-bit flip, byte set 00/ff, every truncation, extension 1..=16, swapped length fields; provider error / wrong key / wrong-length key on either call. Oracle: pristine => Ok(seed); any fault => Err, never Ok and never a panic.",
    "Harness providers authenticate their own wrapped key (as real KMS do). AES-GCM/ring is trusted to reject forged ciphertexts.",
    "DESIGN.md §3 C14"),
+ "C01": ("E-PROC", "exploration",
+   "deviation-bounded exhaustive enumeration of adversarial peer answers (tamper alphabet incl. every single bit of the reply) against the real client process, judged by an independent reference verifier",
+   "Each case is one execution of the real roughenough-client with a pinned key against a harness responder that builds the honest reply for the request actually received and applies one tamper operator: every bit of the datagram, field substitutions without re-signing, chains re-signed by another key, properly signed windows excluding MIDP, cross-protocol and cross-request splices, replays, truncations/extensions; -n 2/3 with all assignment functions. Violation iff the client exits 0 with a time while rtref::authentic rejects.",
+   "Trusted: rtref verifier/responder. 1 deviation per reply (0 = honest baseline, recorded per version so a vacuous half is visible). Signature values are not enumerated beyond the alphabet.",
+   "DESIGN.md §3 C01"),
+ "C03": ("E-PROC", "exploration",
+   "exhaustive enumeration of batch shapes x midpoints x version x key option with the real client process against an honest reference responder and the real server",
+   "The client's request is placed at every position of every batch shape of the tier (thorough: all 2080 shapes n<=64) and signed with boundary midpoints (epoch .. year 9999); the client must exit 0, print exactly the signed midpoint converted from the protocol unit, verified=Yes iff a key was given, and the right merkle_index.",
+   "Trusted: rtref responder and calendar conversion. Random nonces are the client's own.",
+   "DESIGN.md §3 C03"),
+ "C10": ("E-SEQ+E-STATE", "exploration",
+   "bounded-exhaustive enumeration over a structured seed alphabet and all make_cert sequences up to length 4 (thorough 5) on one key object; restart histories of real in-process Servers with every emitted CERT checked",
+   "Public key == Ed25519(seed) by direct dalek (RFC 8032 anchored), SRV == SHA-512(0xff||pk)[..32], identical across constructions and restarts; every CERT (from make_cert and from every reply of both responders) is DELE{PUBK,MINT,MAXT} signed under that version's delegation context, fails under the other's, and its window contains the reply's midpoint.",
+   "Seeds are a structured alphabet (40 quick / 582 thorough), not all 2^256.",
+   "DESIGN.md §3 C10"),
+ "C11": ("E-SEQ+E-STATE", "exploration",
+   "exhaustive clock grid through make_srep(clock) plus every reply of bounded event histories bracketed by the harness clock",
+   "Grid of 12 second values x 10 sub-second values (thorough: + every second of a leap day) x 2 versions: MIDP == floor(clock/unit), RADI == 5 s in unit, signature valid, ROOT echoed; live: every authentic reply of all C09 histories of depth 4 (thorough 5) has its midpoint inside the bracket of harness clock readings and the true signing time within midpoint +/- radius.",
+   "The clock is an owned input only at the make_srep seam; live replies use the system clock (bracketed).",
+   "DESIGN.md §3 C11"),
+ "C17": ("E-STATE", "model_checking",
+   "explicit-state exploration of the real recorders: all operation sequences up to length 4 (thorough 5) over 25 operations with a step oracle; all hand-off/merge histories of 4 (5) events through the real queue and Reporter against a model; C09 histories for the Server wiring",
+   "After every operation exactly one of {own counter +1 (bytes + arg), overflow +1} happened, tracked <= limit, every getter equals the sum over rows, aggregated == per-client totals while no overflow; reporter per-address sums equal the sums of the snapshots it popped (model queue drops the oldest when full); a Server's recorded totals equal the datagrams actually sent and received.",
+   "The recorder's canonical state is (rows, overflow); states are genuinely deduplicated for the count. One Reporter is reused per chunk of merge histories (cumulative model).",
+   "DESIGN.md §3 C17"),
 }
 
 PENDING_REASON = "check not built yet in this session (planned, see DESIGN.md §3); no claim is made until it is"
